@@ -175,3 +175,11 @@ package updog
 //@   bv
 //@   loop 1
 //@     invariant wf(e) && 0 <= $i && $i <= len(e.Exprs)
+
+//@ func [C08,C14,C04] (*Index).Execute(idx, q) (result, err)
+//@   requires IdxInv(idx) && q != nil && idx.mtx.held == 0
+//@   modifies heap list.List.stamp; heap list.List.clock; heap list.List.members; heap CounterMetric.count; heap LRUCache.curSize
+//@   modifies heap map[uint64]*list.Element; heap dom[uint64]*list.Element; heap lruCacheItem.bm; heap lruCacheItem.size; heap HistogramMetric.obs
+//@   ensures [C14] err != nil ==> result == nil
+//@   ensures [C14] err == nil ==> result != nil
+//@   ensures [C14,C04] IdxInv(idx) && idx.mtx.held == 0
